@@ -6,7 +6,7 @@ from .sorts import *      # noqa
 from . import types as Ty
 from . import front
 from .front import Unsupported
-from .state import sel_L
+from .state import sel_L, in_pre
 from .state import (SV, State, const_sv, truthy, shape, field_type, GHOSTS, ghost, KIND, CLS, cls_in,
                     int_of, str_of, val_of, elem_type, declare_class)
 
@@ -205,7 +205,7 @@ class SpecEval(object):
                     hp = getattr(self.st, 'heap', {})
                     untouched = attr not in hp or hp[attr].eq(z3.Const('H0_' + attr, FieldArr))
                     self.typing.append(Implies(And(is_ref(base.term), a >= 0, a < self.st.nxt, KIND(a) == K_INST,
-                                                   cls_in(CLS(a), ty.cls)), shape(self.st, term, ft, pre=untouched)))
+                                                   cls_in(CLS(a), ty.cls)), shape(self.st, term, ft, pre=in_pre(untouched, a))))
         return SV(term, fty)
 
     def extra_has_bound(self):
@@ -250,7 +250,7 @@ class SpecEval(object):
                     # closed heap: a reference stored in a mapping points to an allocated object
                     dv = getattr(self.st, 'DV', None)
                     untouched = dv is not None and dv.eq(z3.Const('DV0', DVArr))
-                    self.typing.append(Implies(self.st.DK[va(base.term)][val_of(idx)], shape(self.st, vterm, ty.v, pre=untouched)))
+                    self.typing.append(Implies(self.st.DK[va(base.term)][val_of(idx)], shape(self.st, vterm, ty.v, pre=in_pre(untouched, va(base.term)))))
                 return SV(vterm, ty.v)
             if isinstance(ty, Ty.TStr):
                 return z3.SubString(vs(base.term), int_of(idx), 1)
